@@ -195,7 +195,11 @@ def check(run):
     for i in range(n):
         tree = G.gen_tree(run.rng, run.tier)
         rank0 = run.rng.choice([1, 1, run.rng.randint(0, 12), run.rng.randint(0, 12), 1000])
-        obs = G.load_real(tree, rank0)
+        # one layout in eight is loaded a second time after a first load that failed for a reason outside the suite files
+        again = (i % 8 == 3)
+        obs = G.load_real(tree, rank0, after_failed_load=again)
+        if again:
+            run.count("layouts_loaded_again_after_a_failed_first_load")
         if G.via_link(tree):
             run.count("layouts_loaded_through_a_symbolic_link_to_their_directory")
         run.evaluations += 1
